@@ -98,7 +98,8 @@ def cases(tier, seed):
             continue
         progs.append(t)
     step = 1 if tier != "quick" else 2
-    sel = FAMILY + [t for t in progs[len(FAMILY):]][::step]
+    seed_set = set(gen.SEEDS)
+    sel = FAMILY + [t for i, t in enumerate(progs[len(FAMILY):]) if i % step == 0 or t in seed_set]
     for text in sel:
         goals = gen.goals_for(text, 2, 4 if tier == "quick" else 6)
         out.append({"input": {"kind": "program", "text": text, "goals": goals}, "N": 5})
